@@ -12,9 +12,9 @@ import (
 
 // Role describes how a function consumes a statement.
 type Role struct {
-	Query int // index into Params of the query string (-1: statement handle instead)
-	Args  int // index into Params of the variadic argument slice (-1: none)
-	Stmt  int // index into Params of a StmtWrapper (-1: none)
+	Query int    // index into Params of the query string (-1: statement handle instead)
+	Args  int    // index into Params of the variadic argument slice (-1: none)
+	Stmt  int    // index into Params of a StmtWrapper (-1: none)
 	Kind  string // exec | query | queryrow | prepare
 }
 
@@ -117,15 +117,15 @@ func sinkOf(cs engine.CallSite) *SinkCall {
 
 // Site is one place where a statement originates (its text is not a forwarded parameter).
 type Site struct {
-	Fn     *ssa.Function
-	Call   ssa.CallInstruction
-	Query  ssa.Value // nil for statement-handle uses
-	Args   ssa.Value // variadic slice or nil
-	Stmt   ssa.Value
-	Kind   string
-	Mapper ssa.Value // row-mapper function argument, if the forwarder has one
-	Via    string    // name of the forwarder/sink
-	ScalarRow bool   // forwarder scans a single column (MapQueryRow[T] etc.)
+	Fn        *ssa.Function
+	Call      ssa.CallInstruction
+	Query     ssa.Value // nil for statement-handle uses
+	Args      ssa.Value // variadic slice or nil
+	Stmt      ssa.Value
+	Kind      string
+	Mapper    ssa.Value // row-mapper function argument, if the forwarder has one
+	Via       string    // name of the forwarder/sink
+	ScalarRow bool      // forwarder scans a single column (MapQueryRow[T] etc.)
 }
 
 // Forwarders derives the functions that pass a query parameter (and optionally a
@@ -181,10 +181,10 @@ func rootParamIdx(fn *ssa.Function, v ssa.Value) int {
 func BuildIndex(p *engine.Prog, funcs []*ssa.Function) *Index {
 	ix := &Index{P: p, Forwarders: map[*ssa.Function]*Forwarder{}}
 	type use struct {
-		cs   engine.CallSite
-		sink *SinkCall
-		fw   *Forwarder
-		via  string
+		cs     engine.CallSite
+		sink   *SinkCall
+		fw     *Forwarder
+		via    string
 		mapper ssa.Value
 	}
 	usesOf := func(g *ssa.Function) []use {
